@@ -24,12 +24,15 @@
 use super::*;
 use std::cell::RefCell;
 
+const EXT_TY: &str = "Rs.ReadExt Gen.ZipCryptoValidator Gen.AesMode";
+
 #[derive(Clone)]
 struct HInfo {
     /// Lean type of the `Ok` value; `None` for a unit-returning `&mut self` method
     res: Option<String>,
     pure_fn: bool,
     fuel: bool,
+    dev: bool,
 }
 
 thread_local! {
@@ -50,6 +53,9 @@ enum Kind {
     Res,
     /// `&mut self`, returns nothing
     UnitMut,
+    /// method of a tuple structure `S<R>(R)` that wraps its reader: the device of the monad is `self.0`; a
+    /// `ZipResult<T>` is the outcome of the `M`-computation (`?` = bind, `Err` = `M.throw`)
+    Dev,
 }
 
 struct H<'a> {
@@ -74,6 +80,15 @@ struct H<'a> {
     /// inside a loop body: the loop-carried variables
     loop_state: Option<Vec<String>>,
     body_text: String,
+    /// Dev kind: the `visitor: &mut V` parameter (name), if any
+    visitor: Option<String>,
+    uses_ext: bool,
+    /// locals in scope whose type has a translated `Drop` (innermost last)
+    droppable: Vec<String>,
+    /// locals bound to an untyped integer literal: substituted at their uses
+    lit_vars: HashMap<String, String>,
+    /// `mut` binders of the pattern just translated
+    mut_binds: RefCell<Vec<String>>,
 }
 
 fn variant_payload(h: &H, en: &str, v: &str) -> R<Vec<String>> {
@@ -152,6 +167,24 @@ impl<'a> H<'a> {
     fn ty(&self, t: &Type) -> R<String> {
         Tr::new(self.reg, self.failed, Some(self.self_ty.clone()), 0).ty(t)
     }
+    /// types of the stream module: a newtype `struct N(T)` is its content
+    fn ty2(&self, t: &Type) -> R<String> {
+        if let Type::Path(p) = t {
+            let seg = p.path.segments.last().ok_or("empty path")?;
+            let n = seg.ident.to_string();
+            if let Some(inner) = self.newtype_of(&n) {
+                return Ok(inner);
+            }
+            if n == "Option" {
+                if let PathArguments::AngleBracketed(a) = &seg.arguments {
+                    if let Some(GenericArgument::Type(t0)) = a.args.first() {
+                        return Ok(format!("(Option {})", self.ty2(t0)?));
+                    }
+                }
+            }
+        }
+        self.ty(t)
+    }
     fn m_mode(&self) -> bool {
         self.kind != Kind::Pure
     }
@@ -209,6 +242,165 @@ impl<'a> H<'a> {
         Err(format!("assignment to the place {place}"))
     }
 
+    fn has_drop(&self, ty: Option<&str>) -> bool {
+        match ty.and_then(|t| t.strip_prefix("Gen.")) {
+            Some(n) => self.kind == Kind::Dev && HFNS.with(|h| h.borrow().get(&format!("{n}::drop")).map(|i| i.res.is_none() && !i.pure_fn).unwrap_or(false)) && !self.failed.contains(&format!("{n}::drop")),
+            None => false,
+        }
+    }
+    /// `Drop::drop` of the droppable locals from index `from` on, innermost first
+    fn drop_from(&mut self, from: usize) {
+        let names: Vec<String> = self.droppable[from..].iter().rev().cloned().collect();
+        for n in names {
+            let ty = self.vars.get(&n).and_then(|x| x.0.clone()).unwrap_or_default();
+            let tn = ty.strip_prefix("Gen.").unwrap_or("").to_string();
+            let fuel = if HFNS.with(|h| h.borrow().get(&format!("{tn}::drop")).map(|i| i.fuel).unwrap_or(false)) { self.uses_fuel = true; " fuel" } else { "" };
+            self.emit(format!("let _ ← Gen.{tn}.drop{fuel} {n}"));
+        }
+    }
+    /// `r?` on a `Result` VALUE in Dev kind: the locals in scope are dropped before the error is returned
+    fn try_value(&mut self, r: &str, ty: Option<String>) -> R<Val> {
+        let okty = ty.as_deref().and_then(t6r2::split_except).map(|(_, t)| t);
+        let t = self.fresh();
+        match &okty {
+            Some(o) => self.emit(format!("let {t} : {o} ← match {r} with")),
+            None => self.emit(format!("let {t} ← match {r} with")),
+        }
+        self.indent += 1;
+        self.emit("| (Except.error e) =>".into());
+        self.indent += 1;
+        self.drop_from(0);
+        self.emit("Model.M.throw e".into());
+        self.indent -= 1;
+        self.emit("| (Except.ok v) =>".into());
+        self.indent += 1;
+        self.emit("pure v".into());
+        self.indent -= 2;
+        Ok(Val::Atom(t, okty))
+    }
+    /// is `e` the device `self.0` (by `&mut`)?
+    fn is_dev(&self, e: &Expr) -> bool {
+        if self.kind != Kind::Dev {
+            return false;
+        }
+        match strip_ref(e) {
+            Expr::Field(f) => matches!(&*f.base, Expr::Path(p) if p.path.is_ident("self")) && matches!(&f.member, Member::Unnamed(i) if i.index == 0),
+            _ => false,
+        }
+    }
+    /// an expression that runs in the monad and whose `ZipResult` is the monad's outcome: its value when it succeeds
+    fn in_monad(&mut self, e: &Expr) -> R<Option<Val>> {
+        if self.kind != Kind::Dev {
+            return Ok(None);
+        }
+        match e {
+            Expr::Paren(p) => self.in_monad(&p.expr),
+            Expr::MethodCall(m) => {
+                let name = m.method.to_string();
+                // `self.0.read_uNN::<LittleEndian>()`
+                if self.is_dev(&m.receiver) && m.args.is_empty() {
+                    let op = match name.as_str() { "read_u16" => Some(("Model.M.readU16", "UInt16")), "read_u32" => Some(("Model.M.readU32", "UInt32")), "read_u64" => Some(("Model.M.readU64", "UInt64")), _ => None };
+                    if let Some((op, ty)) = op {
+                        let le = matches!(&m.turbofish, Some(tf) if tf.args.len() == 1 && matches!(&tf.args[0], GenericArgument::Type(Type::Path(p)) if path_last(&p.path) == "LittleEndian"));
+                        if !le {
+                            return Err("read without ::<LittleEndian>".into());
+                        }
+                        let t = self.fresh();
+                        self.emit(format!("let {t} : {ty} ← {op}"));
+                        return Ok(Some(Val::Atom(t, Some(ty.into()))));
+                    }
+                }
+                // `res.map(F)`: `F` a newtype constructor (identity on the translation) or `Some`
+                if name == "map" && m.args.len() == 1 {
+                    if let Expr::Path(fp) = &m.args[0] {
+                        let f = path_last(&fp.path);
+                        if let Some(Val::Atom(a, ty)) = self.in_monad(&m.receiver)? {
+                            if f == "Some" {
+                                return Ok(Some(Val::Atom(format!("(some {a})"), ty.map(|t| format!("(Option {t})")))));
+                            }
+                            if self.newtype_of(&f).is_some() {
+                                return Ok(Some(Val::Atom(a, ty)));
+                            }
+                            return Err(format!("map({f})"));
+                        }
+                    }
+                    return Ok(None);
+                }
+                // `self.m()` on a translated method of the same device structure
+                if matches!(&*m.receiver, Expr::Path(p) if p.path.is_ident("self")) && m.args.is_empty() {
+                    let key = format!("{}::{}", self.self_ty, name);
+                    if let Some(hi) = HFNS.with(|h| h.borrow().get(&key).cloned()) {
+                        if hi.dev && !self.failed.contains(&key) {
+                            let t = self.fresh();
+                            self.emit(format!("let {t} ← Gen.{}.{name}", self.self_ty));
+                            return Ok(Some(Val::Atom(t, hi.res)));
+                        }
+                    }
+                }
+                Ok(None)
+            }
+            // a translated READ-mode function called with the device
+            Expr::Call(c) => {
+                let p = match &*c.func { Expr::Path(p) => p, _ => return Ok(None) };
+                let name = path_last(&p.path);
+                let fi = match self.reg.fns.get(&name) { Some(fi) if fi.mode == Mode::R => fi.clone(), _ => return Ok(None) };
+                if self.failed.contains(&name) {
+                    return Err(format!("calls the untranslated {name}"));
+                }
+                if c.args.is_empty() || !self.is_dev(&c.args[0]) || !matches!(&c.args[0], Expr::Reference(r) if r.mutability.is_some()) {
+                    return Err(format!("{name} called with something other than the device"));
+                }
+                let mut args = vec![];
+                for a in c.args.iter().skip(1) {
+                    args.push(self.arg(a)?);
+                }
+                let lean = format!("Gen.{name}");
+                let ext = if t6r::is_ext_fn(&lean) { self.uses_ext = true; " ext" } else { "" };
+                let a = if args.is_empty() { String::new() } else { format!(" {}", args.join(" ")) };
+                let t = self.fresh();
+                match &fi.ret {
+                    Some(ty) => self.emit(format!("let {t} : {ty} ← {lean}{ext}{a}")),
+                    None => self.emit(format!("let {t} ← {lean}{ext}{a}")),
+                }
+                Ok(Some(Val::Atom(t, fi.ret.clone())))
+            }
+            _ => Ok(None),
+        }
+    }
+    /// an argument of a call: untyped integer literals (and locals bound to one) are passed as bare numerals, typed by
+    /// the callee's signature
+    fn arg(&mut self, a: &Expr) -> R<String> {
+        if let Expr::Lit(ExprLit { lit: Lit::Int(i), .. }) = a {
+            if i.suffix().is_empty() {
+                return Ok(lit_str(i).0);
+            }
+        }
+        if let (Expr::Path(_), Some(v)) = (a, path_ident(a)) {
+            if let Some(l) = self.lit_vars.get(&v) {
+                return Ok(l.clone());
+            }
+        }
+        match self.expr(a, None)? {
+            Val::Atom(x, _) => Ok(x),
+            Val::Diverges => Err("diverging argument".into()),
+        }
+    }
+    /// a tuple structure `struct N(T)` of the current file: the Lean type of `T`
+    fn newtype_of(&self, n: &str) -> Option<String> {
+        for it in self.all {
+            if let Item::Struct(st) = it {
+                if st.ident == n && st.generics.params.is_empty() {
+                    if let Fields::Unnamed(u) = &st.fields {
+                        if u.unnamed.len() == 1 {
+                            return Tr::new(self.reg, self.failed, None, 0).ty(&u.unnamed[0].ty).ok();
+                        }
+                    }
+                }
+            }
+        }
+        None
+    }
+
     fn pat(&self, p: &Pat, sty: Option<&str>, binds: &mut Vec<(String, Option<String>)>) -> R<String> {
         match p {
             Pat::Wild(_) => Ok("_".into()),
@@ -222,6 +414,9 @@ impl<'a> H<'a> {
                     return Err("`@` pattern".into());
                 }
                 binds.push((n.clone(), sty.map(|s| s.to_string())));
+                if id.mutability.is_some() {
+                    self.mut_binds.borrow_mut().push(n.clone());
+                }
                 Ok(n)
             }
             Pat::Tuple(t) if t.elems.is_empty() => Ok("()".into()),
@@ -348,9 +543,18 @@ impl<'a> H<'a> {
             self.indent = base + 1;
             let saved_vars = self.vars.clone();
             let saved_alias = self.alias.clone();
+            let saved_drop = self.droppable.len();
+            let muts: Vec<String> = std::mem::take(&mut *self.mut_binds.borrow_mut());
             for (n, t) in &binds {
-                self.vars.insert(n.clone(), (t.clone(), false));
+                let is_mut = muts.contains(n);
+                if is_mut {
+                    self.emit(format!("let mut {n} := {n}"));
+                }
+                self.vars.insert(n.clone(), (t.clone(), is_mut));
                 self.alias.remove(n);
+                if self.has_drop(t.as_deref()) {
+                    self.droppable.push(n.clone());
+                }
             }
             if let (Some(n), Some(pl)) = (&alias_name, &alias_place) {
                 self.alias.insert(n.clone(), pl.clone());
@@ -375,10 +579,15 @@ impl<'a> H<'a> {
                     Ok(2)
                 } else {
                     let v = self.expr(&a.body, None)?;
+                    // the binders of the arm go out of scope
+                    if !matches!(v, Val::Diverges) {
+                        self.drop_from(saved_drop);
+                    }
                     fin(self, v)?;
                     Ok(1)
                 }
             })();
+            self.droppable.truncate(saved_drop);
             self.vars = saved_vars;
             self.alias = saved_alias;
             self.indent = base;
@@ -466,6 +675,9 @@ impl<'a> H<'a> {
     /// leave the function with the value `v`
     fn ret(&mut self, v: &str) -> R<()> {
         if self.loop_state.is_some() {
+            if self.kind == Kind::Dev {
+                return Err("return from inside a loop of a device method".into());
+            }
             self.emit(format!("return Rs.Step.ret {v}"));
             return Ok(());
         }
@@ -473,6 +685,10 @@ impl<'a> H<'a> {
             Kind::Pure => self.emit(format!("pure {v}")),
             Kind::Res => self.emit(format!("return ({v}, self)")),
             Kind::UnitMut => self.emit("return self".into()),
+            Kind::Dev => match &self.visitor {
+                Some(vis) => self.emit(format!("return ({v}, {vis})")),
+                None => self.emit(format!("return {v}")),
+            },
         }
         Ok(())
     }
@@ -483,8 +699,49 @@ impl<'a> H<'a> {
 
     fn method(&mut self, m: &ExprMethodCall) -> R<Val> {
         let name = m.method.to_string();
+        if self.kind == Kind::Dev {
+            if let (Expr::Path(_), Some(rv)) = (&*m.receiver, path_ident(&m.receiver)) {
+                // the visitor's callbacks (a `ZipStreamVisitor` parameter): `Rs.Visitor`
+                if Some(&rv) == self.visitor.as_ref() && m.args.len() == 1 {
+                    let a = match &m.args[0] { Expr::Reference(r) => r, _ => return Err("visitor argument".into()) };
+                    let av = path_ident(&a.expr).filter(|_| matches!(&*a.expr, Expr::Path(_))).ok_or("visitor argument")?;
+                    let aty = self.vars.get(&av).and_then(|x| x.0.clone()).unwrap_or_default();
+                    if name == "visit_file" && a.mutability.is_some() && aty == "Gen.ZipFile" && self.vars.get(&av).map(|x| x.1).unwrap_or(false) {
+                        let (t1, t2, t3) = (self.fresh(), self.fresh(), self.fresh());
+                        self.emit(format!("let ({t1}, {t2}, {t3}) ← vis.visit_file {rv} {av}"));
+                        self.emit(format!("{rv} := {t2}"));
+                        self.emit(format!("{av} := {t3}"));
+                        return Ok(Val::Atom(t1, Some("(Except ZErr Unit)".into())));
+                    }
+                    if name == "visit_additional_metadata" && a.mutability.is_none() && aty == "Gen.ZipFileData" {
+                        let (t1, t2) = (self.fresh(), self.fresh());
+                        self.emit(format!("let ({t1}, {t2}) ← vis.visit_additional_metadata {rv} {av}"));
+                        self.emit(format!("{rv} := {t2}"));
+                        return Ok(Val::Atom(t1, Some("(Except ZErr Unit)".into())));
+                    }
+                    return Err(format!("visitor callback {name}"));
+                }
+                // a translated `&mut self` method of a local handle
+                if let Some((Some(ty), true)) = self.vars.get(&rv).cloned() {
+                    if let Some(tn) = ty.strip_prefix("Gen.") {
+                        let key = format!("{tn}::{name}");
+                        if let Some(hi) = HFNS.with(|h| h.borrow().get(&key).cloned()) {
+                            if !hi.pure_fn && !hi.dev && m.args.is_empty() && !self.failed.contains(&key) {
+                                let fuel = if hi.fuel { self.uses_fuel = true; " fuel" } else { "" };
+                                if let Some(res) = hi.res {
+                                    let (t1, t2) = (self.fresh(), self.fresh());
+                                    self.emit(format!("let ({t1}, {t2}) ← Gen.{tn}.{name}{fuel} {rv}"));
+                                    self.emit(format!("{rv} := {t2}"));
+                                    return Ok(Val::Atom(t1, Some(format!("(Except ZErr {res})"))));
+                                }
+                            }
+                        }
+                    }
+                }
+            }
+        }
         // `self.f()` on a translated `&mut self` method
-        if matches!(&*m.receiver, Expr::Path(p) if p.path.is_ident("self")) && self.m_mode() {
+        if matches!(&*m.receiver, Expr::Path(p) if p.path.is_ident("self")) && self.m_mode() && self.kind != Kind::Dev {
             let key = format!("{}::{}", self.self_ty, name);
             let hi = HFNS.with(|h| h.borrow().get(&key).cloned()).ok_or(format!("call of {key}, which is not a translated handle method"))?;
             if self.failed.contains(&key) || hi.pure_fn || !m.args.is_empty() {
@@ -624,9 +881,44 @@ impl<'a> H<'a> {
                     let m: ExprMatch = syn::parse_quote!(match #scrut { #pat => #body, _ => () });
                     return self.match_stmt(&m, false);
                 }
+                if let (true, Some((_, els))) = (tail, &i.else_branch) {
+                    let c = match self.expr(&i.cond, Some("Bool".into()))? { Val::Atom(a, _) => a, _ => return Err("condition".into()) };
+                    self.emit(format!("if {c} then"));
+                    self.indent += 1;
+                    self.block(&i.then_branch, true)?;
+                    self.indent -= 1;
+                    self.emit("else".into());
+                    self.indent += 1;
+                    match &**els { Expr::Block(b) => { self.block(&b.block, true)?; } _ => return Err("else if".into()) }
+                    self.indent -= 1;
+                    return Ok(Val::Diverges);
+                }
                 Err("if".into())
             }
-            Expr::Loop(l) => self.loop_(l),
+            Expr::Loop(l) => self.loop_(&l.body, l.label.is_some()),
+            // `while let P = e { body }` = `loop { match e { P => body, _ => break } }`
+            Expr::While(w) => {
+                if let Expr::Let(l) = &*w.cond {
+                    let (pat, scrut, body) = (&*l.pat, &*l.expr, &w.body);
+                    let b: Block = syn::parse_quote!({ match #scrut { #pat => #body, _ => break } });
+                    return self.loop_(&b, w.label.is_some());
+                }
+                Err("while".into())
+            }
+            Expr::Call(c) if tail && self.kind == Kind::Dev && matches!(&*c.func, Expr::Path(p) if p.path.is_ident("Ok")) && c.args.len() == 1 => {
+                let a = self.arg_typed(&c.args[0])?;
+                self.ret(&a)?;
+                Ok(Val::Diverges)
+            }
+            _ if tail && self.kind == Kind::Dev => {
+                match self.in_monad(e)? {
+                    Some(Val::Atom(a, _)) => {
+                        self.ret(&a)?;
+                        Ok(Val::Diverges)
+                    }
+                    _ => Err("tail expression of a device method".into()),
+                }
+            }
             _ => {
                 let v = self.expr(e, None)?;
                 if tail {
@@ -640,8 +932,25 @@ impl<'a> H<'a> {
         }
     }
 
+    /// the argument of `Ok(..)` in result position
+    fn arg_typed(&mut self, a: &Expr) -> R<String> {
+        if let Expr::Path(p) = a {
+            if p.path.is_ident("None") {
+                return Ok("none".into());
+            }
+        }
+        self.arg(a)
+    }
+
     fn local(&mut self, l: &Local) -> R<()> {
         let init = l.init.as_ref().ok_or("let without initialiser")?;
+        if let (Pat::Ident(id), Expr::Lit(ExprLit { lit: Lit::Int(i), .. })) = (&l.pat, &*init.expr) {
+            if i.suffix().is_empty() && id.mutability.is_none() && id.by_ref.is_none() {
+                // an untyped literal takes its type from its uses: substituted there
+                self.lit_vars.insert(id.ident.to_string(), lit_str(i).0);
+                return Ok(());
+            }
+        }
         if init.diverge.is_some() {
             return Err("let-else".into());
         }
@@ -685,18 +994,25 @@ impl<'a> H<'a> {
         }
     }
 
-    fn loop_(&mut self, l: &ExprLoop) -> R<Val> {
-        if l.label.is_some() || self.loop_state.is_some() {
+    fn loop_(&mut self, body: &Block, labelled: bool) -> R<Val> {
+        if labelled || self.loop_state.is_some() {
             return Err("labelled / nested loop".into());
         }
         if self.kind == Kind::Pure {
             return Err("loop in a pure function".into());
         }
-        let text = { let b = &l.body; quote::quote!(#b).to_string() };
-        if text.split(|c: char| !c.is_alphanumeric() && c != '_').any(|w| w == "self") {
+        if !self.droppable.is_empty() {
+            return Err("loop while a handle is in scope".into());
+        }
+        let dev = self.kind == Kind::Dev;
+        if dev && self.visitor.is_none() {
+            return Err("loop in a device method without a visitor".into());
+        }
+        let text = quote::quote!(#body).to_string();
+        let words: HashSet<&str> = text.split(|c: char| !c.is_alphanumeric() && c != '_').collect();
+        if !dev && words.contains("self") {
             return Err("loop body that mentions `self`".into());
         }
-        let words: HashSet<&str> = text.split(|c: char| !c.is_alphanumeric() && c != '_').collect();
         let mut state: Vec<String> = self.vars.iter().filter(|(k, v)| v.1 && words.contains(k.as_str())).map(|(k, _)| k.clone()).collect();
         state.sort_by_key(|k| text.find(k.as_str()).unwrap_or(usize::MAX));
         for (k, v) in &self.vars {
@@ -728,7 +1044,7 @@ impl<'a> H<'a> {
             for s in &state {
                 self.emit(format!("let mut {s} := {s}"));
             }
-            match self.block(&l.body, false)? {
+            match self.block(body, false)? {
                 Val::Diverges => {}
                 _ => self.emit(format!("pure (Rs.Step.next {st})")),
             }
@@ -738,13 +1054,24 @@ impl<'a> H<'a> {
         let body_lines = std::mem::replace(&mut self.lines, saved_lines);
         self.indent = saved_indent;
         r?;
-        self.aux.push(format!("def {base} (st : {st_ty}) : Model.M (Rs.Step {st_ty} {}) := do\n{}\n", self.ret_ty, body_lines.join("\n")));
         self.uses_fuel = true;
+        let (params, args) = if dev {
+            self.uses_ext = true;
+            (format!(" {{V : Type}} (vis : Rs.Visitor V Gen.ZipFile Gen.ZipFileData) (ext : {EXT_TY}) (fuel : Nat)"), " vis ext fuel")
+        } else {
+            (String::new(), "")
+        };
+        self.aux.push(format!("def {base}{params} (st : {st_ty}) : Model.M (Rs.Step {st_ty} {}) := do\n{}\n", self.ret_ty, body_lines.join("\n")));
         let t = self.fresh();
-        self.emit(format!("let {t} ← Rs.H.loop {base} fuel {st}"));
+        if dev {
+            self.emit(format!("let {t} ← Rs.H.loop ({base}{args}) fuel {st}"));
+        } else {
+            self.emit(format!("let {t} ← Rs.H.loop {base} fuel {st}"));
+        }
         self.emit(format!("match {t} with"));
         match self.kind {
             Kind::Res => self.emit("| Rs.LoopEnd.ret r => return (r, self)".into()),
+            Kind::Dev => self.emit("| Rs.LoopEnd.ret r => return r".into()),
             _ => return Err("loop in a function without a result".into()),
         }
         self.emit("| Rs.LoopEnd.done s =>".into());
@@ -805,6 +1132,9 @@ impl<'a> H<'a> {
                 if self.reg.enums.get(en).map(|vs| vs.iter().any(|(n, p)| n == v && !*p)).unwrap_or(false) {
                     return Ok(Val::Atom(format!("Gen.{en}.{v}"), Some(format!("Gen.{en}"))));
                 }
+                if self.reg.consts.contains(v) {
+                    return Ok(Val::Atom(format!("Gen.{v}"), self.reg.const_ty.get(v).cloned()));
+                }
                 Err(format!("path {}", segs.join("::")))
             }
             Expr::Field(_) => {
@@ -838,6 +1168,28 @@ impl<'a> H<'a> {
                     return Ok(Val::Atom(t, ty));
                 }
                 Err(format!("call of {}", segs.join("::")))
+            }
+            Expr::Try(t) => {
+                if self.kind != Kind::Dev {
+                    return Err("`?` outside a device method".into());
+                }
+                if let Some(v) = self.in_monad(&t.expr)? {
+                    // the callee's error leaves the function through the monad: nothing of this scope may need a drop
+                    if !self.droppable.is_empty() {
+                        return Err("`?` on a call while a handle is in scope".into());
+                    }
+                    return Ok(v);
+                }
+                match self.expr(&t.expr, None)? {
+                    Val::Atom(a, ty) if ty.as_deref().and_then(t6r2::split_except).is_some() => self.try_value(&a, ty),
+                    _ => Err("`?` on something that is not a Result".into()),
+                }
+            }
+            Expr::Binary(b) if matches!(b.op, BinOp::Eq(_) | BinOp::Ne(_)) => {
+                let l = match self.expr(&b.left, None)? { Val::Atom(a, t) => (a, t), _ => return Err("comparison".into()) };
+                let r = match self.expr(&b.right, l.1.clone())? { Val::Atom(a, _) => a, _ => return Err("comparison".into()) };
+                let op = if matches!(b.op, BinOp::Eq(_)) { "==" } else { "!=" };
+                Ok(Val::Atom(format!("({} {op} {r})", l.0), Some("Bool".into())))
             }
             Expr::MethodCall(m) => self.method(m),
             Expr::Match(m) => {
@@ -892,8 +1244,39 @@ fn is_unit_or_diverges(e: &Expr) -> bool {
         Expr::Tuple(t) => t.elems.is_empty(),
         Expr::Return(_) | Expr::Break(_) => true,
         Expr::Macro(m) => m.mac.path.is_ident("panic"),
+        Expr::Block(b) => b.block.stmts.last().map(|s| matches!(s, Stmt::Expr(_, Some(_)) | Stmt::Local(_))).unwrap_or(true),
         _ => false,
     }
+}
+
+/// Is `ty` a tuple structure `struct S<R>(R)` wrapping its reader?
+fn is_dev_struct(all: &[&Item], ty: &str) -> bool {
+    for it in all {
+        if let Item::Struct(st) = it {
+            if st.ident == ty {
+                let tps: Vec<String> = st.generics.params.iter().filter_map(|g| if let GenericParam::Type(t) = g { Some(t.ident.to_string()) } else { None }).collect();
+                if let Fields::Unnamed(u) = &st.fields {
+                    return u.unnamed.len() == 1 && tps.len() == 1 && matches!(&u.unnamed[0].ty, Type::Path(p) if p.path.is_ident(tps[0].as_str()));
+                }
+            }
+        }
+    }
+    false
+}
+
+fn result_arg(t: &Type) -> Option<&Type> {
+    if let Type::Path(p) = t {
+        if matches!(path_last(&p.path).as_str(), "Result" | "ZipResult") {
+            if let PathArguments::AngleBracketed(a) = &p.path.segments.last().unwrap().arguments {
+                if a.args.len() == 1 {
+                    if let GenericArgument::Type(t0) = &a.args[0] {
+                        return Some(t0);
+                    }
+                }
+            }
+        }
+    }
+    None
 }
 
 pub fn translate_hfn(reg: &Registry, failed: &HashSet<String>, all: &[&Item], name: &str) -> R<(String, String, usize, usize)> {
@@ -901,38 +1284,53 @@ pub fn translate_hfn(reg: &Registry, failed: &HashSet<String>, all: &[&Item], na
     let (_im, f) = t6l::find_method(all, ty, m).ok_or("not found")?;
     let lean_name = format!("Gen.{ty}.{m}");
     let recv = f.sig.inputs.iter().find_map(|a| if let FnArg::Receiver(r) = a { Some(r) } else { None }).ok_or("function without `self`")?;
-    if f.sig.inputs.len() != 1 {
-        return Err("parameters other than `self`".into());
-    }
     let tr = Tr::new(reg, failed, Some(ty.to_string()), 0);
     let by_ref = recv.reference.is_some();
-    if by_ref && recv.mutability.is_none() {
+    let dev = is_dev_struct(all, ty);
+    if !dev && by_ref && recv.mutability.is_none() {
         return Err("`&self` method".into());
     }
-    let (kind, res, ret_ty) = match &f.sig.output {
-        ReturnType::Default if by_ref => (Kind::UnitMut, None, "Unit".to_string()),
-        ReturnType::Default => return Err("by-value method without a result".into()),
-        ReturnType::Type(_, t) => {
-            if by_ref {
-                // io::Result<T> / ZipResult<T>
-                let inner = match &**t {
-                    Type::Path(p) if matches!(path_last(&p.path).as_str(), "Result" | "ZipResult") => match &p.path.segments.last().unwrap().arguments {
-                        PathArguments::AngleBracketed(a) if a.args.len() == 1 => match &a.args[0] { GenericArgument::Type(t0) => tr.ty(t0)?, _ => return Err("result type".into()) },
-                        _ => return Err("result type".into()),
-                    },
-                    _ => return Err("`&mut self` method that does not return a Result".into()),
-                };
-                (Kind::Res, Some(inner.clone()), format!("(Except ZErr {inner})"))
-            } else {
-                let t = tr.ty(t)?;
-                (Kind::Pure, Some(t.clone()), t)
+    let body_text = { let b = &f.block; quote::quote!(#b).to_string() };
+    let mut h = H { reg, failed, all, self_ty: ty.to_string(), lean_name: lean_name.clone(), kind: Kind::Pure, ret_ty: String::new(), lines: vec![], indent: 1, n: 0, vars: HashMap::new(), alias: HashMap::new(), aux: vec![], uses_fuel: false, n_loops: 0, loop_state: None, body_text, visitor: None, uses_ext: false, droppable: vec![], lit_vars: HashMap::new(), mut_binds: RefCell::new(vec![]) };
+    // parameters: only a `visitor: &mut V` (`V` a type parameter bounded by a visitor trait) of a device method
+    for a in f.sig.inputs.iter() {
+        if let FnArg::Typed(t) = a {
+            let n = match &*t.pat { Pat::Ident(id) => id.ident.to_string(), _ => return Err("parameter pattern".into()) };
+            let is_vis = dev && matches!(&*t.ty, Type::Reference(r) if r.mutability.is_some() && matches!(&*r.elem, Type::Path(p) if f.sig.generics.params.iter().any(|g| matches!(g, GenericParam::Type(tp) if p.path.is_ident(&tp.ident) && tp.bounds.iter().any(|b| matches!(b, TypeParamBound::Trait(tb) if path_last(&tb.path) == "ZipStreamVisitor"))))));
+            if !is_vis || h.visitor.is_some() {
+                return Err(format!("parameter `{n}`"));
+            }
+            h.visitor = Some(n.clone());
+            h.vars.insert(n, (Some("V".into()), true));
+        }
+    }
+    let (kind, res, ret_ty) = if dev {
+        let t0 = match &f.sig.output { ReturnType::Type(_, t) => result_arg(t).ok_or("device method that does not return a ZipResult")?, _ => return Err("device method without a result".into()) };
+        let inner = h.ty2(t0)?;
+        let full = if h.visitor.is_some() { format!("({inner} × V)") } else { inner.clone() };
+        (Kind::Dev, Some(inner), full)
+    } else {
+        match &f.sig.output {
+            ReturnType::Default if by_ref => (Kind::UnitMut, None, "Unit".to_string()),
+            ReturnType::Default => return Err("by-value method without a result".into()),
+            ReturnType::Type(_, t) => {
+                if by_ref {
+                    let inner = tr.ty(result_arg(t).ok_or("`&mut self` method that does not return a Result")?)?;
+                    (Kind::Res, Some(inner.clone()), format!("(Except ZErr {inner})"))
+                } else {
+                    let t = tr.ty(t)?;
+                    (Kind::Pure, Some(t.clone()), t)
+                }
             }
         }
     };
-    let body_text = { let b = &f.block; quote::quote!(#b).to_string() };
-    let mut h = H { reg, failed, all, self_ty: ty.to_string(), lean_name: lean_name.clone(), kind: kind.clone(), ret_ty: ret_ty.clone(), lines: vec![], indent: 1, n: 0, vars: HashMap::new(), alias: HashMap::new(), aux: vec![], uses_fuel: false, n_loops: 0, loop_state: None, body_text };
-    if kind != Kind::Pure {
+    h.kind = kind.clone();
+    h.ret_ty = ret_ty.clone();
+    if kind == Kind::Res || kind == Kind::UnitMut {
         h.emit("let mut self := self".into());
+    }
+    if let Some(v) = h.visitor.clone() {
+        h.emit(format!("let mut {v} := {v}"));
     }
     match h.block(&f.block, true)? {
         Val::Diverges => {}
@@ -946,8 +1344,17 @@ pub fn translate_hfn(reg: &Registry, failed: &HashSet<String>, all: &[&Item], na
         Kind::Pure => format!("def {lean_name} (self : Gen.{ty}) : Option {ret_ty} := do"),
         Kind::Res => format!("def {lean_name}{fuel} (self : Gen.{ty}) : Model.M ({ret_ty} × Gen.{ty}) := do"),
         Kind::UnitMut => format!("def {lean_name}{fuel} (self : Gen.{ty}) : Model.M Gen.{ty} := do"),
+        Kind::Dev => match &h.visitor {
+            Some(v) => format!("def {lean_name} {{V : Type}} (vis : Rs.Visitor V Gen.ZipFile Gen.ZipFileData) (ext : {EXT_TY}) (fuel : Nat) ({v} : V) : Model.M {ret_ty} := do"),
+            None => {
+                if h.uses_ext || h.uses_fuel {
+                    return Err("device method without a visitor that needs `ext` / `fuel`".into());
+                }
+                format!("def {lean_name} : Model.M {ret_ty} := do")
+            }
+        },
     };
-    HFNS.with(|x| x.borrow_mut().insert(name.to_string(), HInfo { res: if kind == Kind::UnitMut { None } else { res }, pure_fn: kind == Kind::Pure, fuel: h.uses_fuel }));
+    HFNS.with(|x| x.borrow_mut().insert(name.to_string(), HInfo { res: if kind == Kind::UnitMut { None } else { res }, pure_fn: kind == Kind::Pure, fuel: h.uses_fuel, dev: kind == Kind::Dev }));
     let mut text = String::new();
     for a in &h.aux {
         text += a;
